@@ -66,6 +66,15 @@ def run(tier, rep):
     de.mc_mini(rep, 10 if quick else 12, liveness=True)
     fe.mc(rep, "bytes", 8 if quick else 11, maxpay=1, optset="OptAll", bundle=bundle, liveness=True)
 
+    # user-registered (mini) definitions, incl. malformed ones, through the real interpreter
+    recs, mv = de.judge_minis(rep, 8 if quick else 12)
+    rep.count("traces_validated_against_impl", len(recs))
+    for r in recs:
+        v = mv[r["rid"]]
+        rep.case(digest(["mini", bytes(r["p"]).hex()]), nontrivial=v[1] != "Message")
+        if v[0] != "accept":
+            rep.reject(v[1], {"engine": "mini", "ident": r.get("ident", ""), "cls": r["cls"]}, de.replay_of(r, {"mini": True}, v))
+
     rnd = rng("c04")
     corp = de.Corpus(rep, bundle)
     hung = []
@@ -127,6 +136,10 @@ def run(tier, rep):
     # streams
     tr = fe.Traces(rep)
     spool = stream_corpus.payload_pool(bundle, "c04", 60) + [b"", b"\x3e", b"\xfe\xc0"]
+    # frames with a right checksum whose payload does not decode (truncated / mutated bodies of defined types)
+    for pl in list(spool[:40]):
+        if len(pl) > 4:
+            spool.append(pl[: rnd.randrange(2, len(pl))])
     n = 30 if quick else 300
     for i in range(n):
         data, items = gen_streams.mixed_stream(rnd, spool, rnd.randint(3, 12), well_formed=False, dmg=0.3)
